@@ -50,7 +50,9 @@ def replay(rec, ctx):
     viol = []
 
     def bad(what, detail):
-        viol.append({"sig": f"{m}:{what}", "detail": f"{detail} | dens={rec['dens']} temp={rec['temp']} nb={rec['nb']}"})
+        viol.append({"sig": f"{m}:{what}" + ("" if rec.get("prior", "none") == "none" else f"@after-other-{rec['prior']}"), "detail": f"{detail} | dens={rec['dens']} temp={rec['temp']} nb={rec['nb']}"})
+    ev = lambda: model.emission(Point3D(0, 0, 0.5), Point3D(0.1, 0.2, 0.3), Vector3D(0, 0, 1), Vector3D(1, 0, 0), Spectrum(c03.LO, c03.HI, c03.BINS))   # noqa: E731
+    EC.prior_phase(rec, rates, model, ev, calls, ad, pl, beam=beam)
     sp = Spectrum(c03.LO, c03.HI, c03.BINS)
     try:
         out = model.emission(Point3D(0, 0, 0.5), Point3D(0.1, 0.2, 0.3), Vector3D(0, 0, 1), Vector3D(1, 0, 0), sp)
